@@ -414,7 +414,8 @@ fn judge_parse(ks: &[KeyState; 3], nkeys: usize, default_flavor: bool, t: &PoolT
         }
     }
     for k in &registered {
-        if calls.iter().filter(|c| c.slot / 3 == *k).count() > 1 {
+        // (the statement fixes "exactly once" for successful parses only)
+        if out.is_ok() && calls.iter().filter(|c| c.slot / 3 == *k).count() > 1 {
             c16(v, "validator-ran-twice", format!("validator for {:?} ran more than once in one parse", KEYS[*k]));
         }
     }
